@@ -198,14 +198,35 @@ def view_step(x, kind, P, k="v0"):
     return step(x, kind, P, k)
 
 
-def on_view(RaggedArray, lens, data, dtype, pre, op_fn, P):
-    """op_fn applied to d = pre(a) and to a freshly built array with d's rows (second evaluation); returns (obs of op(d), obs of op(f), a after)"""
-    from .common import mk_ragged, obs_ragged, outcome, typed
+def ref_view_rows(rows, kind, P, k="v0", conc=int):
+    """the rows a view step selects, by plain list operations; rows have concrete lengths, parameters are made concrete with `conc`"""
+    n, B = len(rows), P.B
+    if kind == "rowrev":
+        return rows[::-1]
+    if kind == "rowlist3":
+        if n == 0:
+            return []
+        return [rows[conc(P.int(f"{k}{t}", -n, n - 1))] for t in "ijk"]
+    if kind == "mask":
+        m = P.bools(f"{k}m", n)
+        return [r for r, b in zip(rows, m) if conc(b)]
+    if kind == "rowslice_a":
+        return rows[conc(P.int(f"{k}a", -B, B)):]
+    if kind == "colslice_a":
+        a = conc(P.int(f"{k}a", -B, B))
+        return [r[a:] for r in rows]
+    sl = {"colrev": slice(None, None, -1), "colstep2": slice(None, None, 2), "colstepm2": slice(None, None, -2)}[kind]
+    return [r[sl] for r in rows]
+
+
+def on_view(RaggedArray, lens, data, dtype, pre, op_fn, P, conc=int):
+    """op_fn applied to d = pre(a) and to a freshly built array holding the rows pre selects (computed on plain lists; `lens` is concrete);
+    returns (obs of op(d), obs of op(fresh), a after)"""
+    from .common import mk_ragged, obs_ragged, outcome, typed, rows_of
     a = mk_ragged(RaggedArray, data, lens, dtype)
     d = view_step(a, pre, P)
-    d2 = view_step(mk_ragged(RaggedArray, data, lens, dtype), pre, P)
-    o2 = obs_ragged(d2)
-    f = RaggedArray(typed(o2["flat"], dtype), arr(o2["lens"], "int64"))
+    rows = ref_view_rows(rows_of(list(data), [int(l) for l in lens]), pre, P, conc=conc)
+    f = RaggedArray(typed([c for r in rows for c in r], dtype), arr([len(r) for r in rows], "int64"))
     od = outcome(lambda: op_fn(d))
     of = outcome(lambda: op_fn(f))
     return od, of, obs_ragged(a)
